@@ -547,9 +547,23 @@ def seen_ctx(out) -> dict:
     return d
 
 
+FAILING_STEPS = ("fail", "failc", "perm", "stop", "cancel", "jump", "susp")
+
+
 def m_c01(out, base) -> list[Violation]:
     shifted = script_shifted(out)
     vs = [] if shifted else m_outcome(out, base, "crash+restart+recovery", exec_slack=in_flight_tasks(out))
+    if shifted and out["quiescent"] and base["quiescent"] and base["final"]["wf"] == "SUCCEEDED" \
+            and out["final"]["wf"] in ("TERMINAL", "CANCELED", "STOPPED") \
+            and not any(str(step).split(":")[0] in FAILING_STEPS for sp in spec_map(out).values()
+                        for steps in sp.get("tasks", []) for step in steps):
+        # the call-count shift of a polling / retried task only moves FORWARD in its script (fewer polls, fewer transient
+        # failures): with no step scripted to fail, stop, cancel, jump or suspend a failed workflow is not an artefact
+        vs.append(Violation(
+            what=f"workflow ends {out['final']['wf']} after crash+restart+recovery although no task is scripted to fail "
+                 f"(the uninterrupted run ends SUCCEEDED)",
+            signature=f"outcome:wf:SUCCEEDED->{out['final']['wf']}:crash+restart+recovery:no-failing-step",
+            replay=_replay(out, {"baseline_final": final_statuses(base)})))
     if out["quiescent"] and base["quiescent"] and halt_free(base) and not shifted:
         sa, sb = seen_ctx(out), seen_ctx(base)
         for k, ctxs in sa.items():
